@@ -19,7 +19,7 @@ WHAT = {
 
 # what the contracts of the kernel functions decide for each pipeline property (for all inputs, discharged by SMT);
 # the quantifier over the remaining rule bodies is the part that stays with the bounded layer
-BASES = "the _fix_violation of ten fix bases against effect contracts — token_case (243 of the 1049 rule objects inherit it unchanged), whitespace_between_tokens (171), the do-nothing default of vsg/rule.py (134: unfixable, naming and deprecated rules), token_indent (102), align_tokens_in_region_between_tokens (45 + 7 for its skipping-lines variant), blank_line_below_line_ending_with_token (36), previous_line (25), blank_line_above_line_starting_with_token (16), consistent_token_case (10), remove_excessive_blank_lines_above_line_starting_with_token (5): 794 rules in all — with the _analyze of token_indent and whitespace_between_tokens proved to establish their preconditions (the preconditions of the other bases are assumed and observed by the bounded layer)"
+BASES = "the _fix_violation of 14 fix bases against effect contracts — token_case (243 of the 1049 rule objects inherit it unchanged), whitespace_between_tokens (171), the do-nothing default of vsg/rule.py (134: unfixable, naming and deprecated rules), token_indent (102), align_tokens_in_region_between_tokens (45, and 7 for its skipping-lines variant), blank_line_below_line_ending_with_token (36), token_prefix (26), previous_line (25), insert_carriage_return_after_token_if_it_is_not_followed_by_a_comment (18), split_line_at_token (17), blank_line_above_line_starting_with_token (16), consistent_token_case (10), remove_excessive_blank_lines_above_line_starting_with_token (5): 855 rules in all — with the _analyze of token_indent and whitespace_between_tokens proved to establish their preconditions; the preconditions of the other bases are assumed and OBSERVED: the contract text is evaluated by CPython around every real _fix_violation call of the bounded universe (bounded/monitor.py)"
 DED = {
     "C01": "vhdlFile.update is the splice of the analysed regions (everything in front of the first region keeps identity and place; one region: exactly old[:start] + new + old[end:]); remove_beginning_of_file_tokens is a filter; " + BASES + ": every non-white-space token of the region is the same object in the same order, token_case changes the first token's value in letter case only and keeps its length; the phase-1 normalisers (fix_blank_lines, fix_trailing_whitespace) keep every non-blank token and every line break",
     "C02": BASES + ": non-white-space tokens (so every comment, pragma and preprocessor token of the region) are the same objects in the same order with unchanged values; the phase-1 normalisers keep them too",
@@ -43,7 +43,7 @@ def meta(pid, extra_note=""):
     return {
         "level": "other",
         "technique": "contract-based deductive verification (pyvc: contracts on the real functions, VCs from the real AST, cvc5/z3) of the kernel functions the property depends on; the quantifier over all rule bodies is covered by runtime evaluation of the same effect contracts at the choke points of the real code (Rule.fix, Rule.analyze, vhdlFile.update, rule_list.fix) over a finite universe of inputs: a labelled bounded stand-in, not a proof",
-        "text": "PROVED for all inputs (kernel): " + DED[pid] + ". BOUNDED (the property itself, every rule): " + WHAT[pid] + ". The other fix bases (about a quarter of the rules, mostly phase-1 structure rules) are not under contract (DESIGN.md section 2 lists which are), hence level 'other'.",
+        "text": "PROVED for all inputs (kernel): " + DED[pid] + ". BOUNDED (the property itself, every rule): " + WHAT[pid] + ". The other fix bases (194 rules, mostly phase-1 structure rules that move, insert or remove tokens) are not under contract (DESIGN.md section 2 lists which are), hence level 'other'.",
         "note": "Universe of the bounded part: repository fixtures x 3 configurations + 2 input variants + generated micro designs. Known findings of the unchanged tree are listed in known_findings.json by (rule, file, configuration, variant). Assumed: abstract contracts of Rule.analyze / Rule._fix_violation (virtual), process_tokens (INDEX stub), P_update (regions ascending and disjoint) as hypothesis of the splice clauses. Trusted: pyvc, SMT solvers, CPython-validated lemma schemas." + extra_note,
     }
 
